@@ -184,6 +184,10 @@ func runC12(c *Ctx) {
 	// ---- R5 ------------------------------------------------------------------------------
 	c.Rule("R6", "accessor agreement for the id/height tables (consumer height->id map; provider id counter, id->height map, init height): right key space, key arguments by name, setters store their value parameter", 12)
 	checkAccessorAgreement(c, "ck", "HeightValsetUpdateIDKey")
+	checkCollectors(c, "ck", "GetAllHeightToValsetUpdateIDs")
+	checkCollectors(c, "pk", "GetAllValsetUpdateBlockHeights")
+	c.KeyShapeIs("ct.HeightValsetUpdateIDKey", "Const(HeightValsetUpdateIDKey)·U64(param:height)", "the height table is exported in ascending height order")
+	c.KeyShapeIs("pt.ValsetUpdateBlockHeightKey", "Const(ValsetUpdateBlockHeightKey)·U64(param:valsetUpdateId)", "the id table is keyed by the big-endian update id")
 	checkAccessorAgreement(c, "pk", "ValidatorSetUpdateIdKey", "ValsetUpdateBlockHeightKey", "InitChainHeightKey")
 	checkKeyArgNames(c, "ck")
 	checkSetterValues(c, "ck", []string{"HeightValsetUpdateID"})
